@@ -412,18 +412,16 @@ public:
       ++m;
 
       int cpy = m - n;
+      int newsize = size() - cpy;
       cpy = (size() - m >= cpy) ? cpy : size() - m;
 
       Nonzero<R>* e = &m_elem[size() - 1];
       Nonzero<R>* r = &m_elem[n];
 
-      set_size(size() - cpy);
+      set_size(newsize);
 
-      do
-      {
+      while(cpy-- > 0)
          *r++ = *e--;
-      }
-      while(--cpy);
    }
 
    /// Remove \p n 'th nonzero.
